@@ -3,10 +3,18 @@
 S1  TLC explores spec/WindowConc.tla (PlusCal; labels = la.* / mb.* yield hooks of the real code) for all
     interleavings of 2-3 goroutines (writers / a reader) and the clock around a bucket boundary, under the
     property's stall assumption, and checks NoInvention and ExactWhenNoOverlap (operators of WindowConcProp).
-    The pinned order "publish the new start, then zero the counters" is kept as a spec-level mutant
-    (ResetFirst = FALSE): TLC must find its NoInvention counterexample, which is replayed on the real code.
-S2  schedules: TLC random simulation, the mutant's counterexample, seeded random schedules (1-2 ops per goroutine).
-S3  harness/cmd/c09 forces them on sbase.BucketLeapArray (AddCount / Count) through the goroutine gate.
+    Every goroutine of a configuration has its own statistic (WKind / RKind): a counter event kind (pass, complete,
+    rt ... via AddCount / Count), the per-bucket minimum (AddRt / MinRt) or maximum (UpdateConcurrency /
+    MaxConcurrency); the clauses of the property are per statistic and a roll-over must clear all of them.
+    Spec-level mutants (vacuity guards): the pinned order "publish the new start, then zero the counters"
+    (ResetFirst = FALSE), the pinned "no re-check under the lock" (Recheck = FALSE) and "the roll-over skips the
+    reset of a bucket in which nothing arrived" (IdleKinds = {"pass"}): TLC must find the counterexample of each,
+    which is replayed on the real code.
+S2  schedules: TLC random simulation, the mutants' counterexamples, seeded random schedules (1-2 ops per goroutine,
+    all statistics), seeded sparse-traffic runs (1-2 goroutines x 3-5 ops, many ticks: buckets that hold only
+    completions / rt / concurrency are rolled over again and again).
+S3  harness/cmd/c09 forces them on sbase.BucketLeapArray (AddCount / UpdateConcurrency / Count / MinRt /
+    MaxConcurrency) through the goroutine gate; every execution ends with quiescent reads of all seven statistics.
 S4  spec/WindowConc_Trace.tla (TLC) judges the recorded operation-level traces with the same operators.
     Thorough tier adds a free-running stress (no gate) judged for NoInvention / exactness at quiescence.
 """
@@ -20,28 +28,81 @@ CONSTANTS
   Writers = %(writers)s
   Readers = %(readers)s
   Amt <- MCAmt
+  WKind <- MCWKind
+  RKind <- MCRKind
+  K1 = "%(k1)s"
+  K2 = "%(k2)s"
+  K3 = "%(k3)s"
+  K4 = "%(k4)s"
+  CKinds = %(ckinds)s
+  MaxRt = 9
+  IdleKinds = %(idle)s
   T0 = %(t0)d
   MaxT = %(maxt)d
   ResetFirst = %(resetfirst)s
   Recheck = %(recheck)s
 VIEW view
-INVARIANTS NoInventionInv ExactInv FinalExact
+INVARIANTS %(invs)s
 CHECK_DEADLOCK FALSE
 %(extra)s"""
 
 
-def cfg(n=1, bl=2, nw=2, nr=1, t0=1, maxt=4, resetfirst=True, recheck=True, extra=''):
+COUNTERS = ['pass', 'block', 'complete', 'error', 'rt']     # AddCount / Count
+FEEDS = dict(minrt='rt', maxconc='conc')                    # MinRt <- AddRt, MaxConcurrency <- UpdateConcurrency
+
+
+def tlaset(xs):
+    return '{%s}' % ', '.join('"%s"' % x for x in xs)
+
+
+def cfg(n=1, bl=2, nw=2, nr=1, t0=1, maxt=4, resetfirst=True, recheck=True, extra='', kinds=None, idle=(), invs='NoInventionInv ExactInv FinalExact TypeOK'):
+    """kinds = the statistic of process 1..nw+nr (writers first): a counter event kind, 'conc' (writers), 'minrt' / 'maxconc' (readers)"""
     w = list(range(1, nw + 1))
     r = list(range(nw + 1, nw + nr + 1))
+    kinds = list(kinds or ['pass'] * (nw + nr))
+    ck = sorted({'pass'} | {k for k in kinds if k in COUNTERS} | ({'rt'} if 'minrt' in kinds else set()) | set(idle))
+    k4 = (kinds + ['pass'] * 4)[:4]
     return CFG % dict(n=n, bl=bl, writers='{%s}' % ', '.join(map(str, w)), readers='{%s}' % ', '.join(map(str, r)), t0=t0, maxt=maxt,
                       resetfirst='TRUE' if resetfirst else 'FALSE',
-                      recheck='TRUE' if recheck else 'FALSE', extra=extra)
+                      recheck='TRUE' if recheck else 'FALSE', extra=extra, invs=invs,
+                      k1=k4[0], k2=k4[1], k3=k4[2], k4=k4[3], ckinds=tlaset(ck), idle=tlaset(idle))
 
 
-def scenario(tr, sched, n=1, bl=2, nw=2, nr=1, t0=1, unit=1, procs=None):
+def scenario(tr, sched, n=1, bl=2, nw=2, nr=1, t0=1, unit=1, procs=None, kinds=None):
     if procs is None:
-        procs = [[dict(kind='add', n=i)] for i in range(1, nw + 1)] + [[dict(kind='read', n=0)] for _ in range(nr)]
+        kinds = list(kinds or ['pass'] * (nw + nr))
+        procs = [[dict(kind='add', ev=kinds[i - 1], n=i)] for i in range(1, nw + 1)] + \
+                [[dict(kind='read', ev=kinds[nw + j], n=0)] for j in range(nr)]
     return dict(tr=tr, unit=unit, n=n, bl=bl, t0=t0, procs=procs, sched=sched)
+
+
+SHAPE = ('n', 'bl', 'nw', 'nr', 't0', 'kinds')
+
+
+def shape(k):
+    return {x: k[x] for x in SHAPE if x in k}
+
+
+def rand_ops(rng, count, palette, padd):
+    """count operations over the statistics of `palette` (add kinds); reads mostly look at what is being recorded"""
+    ops = []
+    readable = [k if k in COUNTERS else 'maxconc' for k in palette] + (['minrt'] if 'rt' in palette else [])
+    for _ in range(count):
+        if rng.random() < padd:
+            ops.append(dict(kind='add', ev=rng.choice(palette), n=rng.choice([1, 2, 5])))
+        else:
+            ev = rng.choice(readable) if rng.random() < 0.85 else rng.choice(COUNTERS + ['minrt', 'maxconc'])
+            ops.append(dict(kind='read', ev=ev, n=0))
+    return ops
+
+
+def rand_palette(rng):
+    x = rng.random()
+    if x < 0.3:
+        return ['pass']
+    if x < 0.45:
+        return [rng.choice(['block', 'complete', 'error', 'rt', 'conc'])]
+    return rng.sample(COUNTERS + ['conc'], rng.choice([2, 3, 4]))
 
 
 def last_sched(out):
@@ -103,18 +164,24 @@ def handle(c, drv, scns, mism, tag, mode=None):
 
 
 def binding_selftest(c, tp):
-    """inflate the value returned by one read in each of the first good traces: all must be rejected"""
+    """inflate the value returned by one of the final reads (another statistic in each trace) of the first good traces:
+    all must be rejected"""
     lines = [json.loads(l) for l in open(tp)]
-    out, want, done = [], 0, True
+    out, want, done, k, stats = [], 0, True, 0, {}
     for e in lines:
         if e['op'] == 'new':
-            if want >= 30:
+            if want >= 35:
                 break
-            done = False
-        elif e['op'] == 'ret' and e['p'] == 8 and not done:     # the final quiescent read
-            e = dict(e, val=e['val'] + 1000)     # more than was ever recorded
-            done = True
-            want += 1
+            done, k = False, 0
+        elif e['op'] == 'inv' and e['p'] == 8:
+            cur = e['ev']
+        elif e['op'] == 'ret' and e['p'] == 8 and not done:     # the final quiescent reads, in the driver's order
+            if k == want % 7:
+                e = dict(e, val=e['val'] + 1000)     # more than was ever recorded / an amount nobody recorded
+                done = True
+                want += 1
+                stats[cur] = stats.get(cur, 0) + 1
+            k += 1
         out.append(e)
     while out and out[-1]['op'] != 'end':
         out.pop()
@@ -124,7 +191,9 @@ def binding_selftest(c, tp):
     n = sum(1 for e in out if e['op'] == 'new')
     if len({m[0] for m in mism}) != n:
         raise MachineryError('binding self-test failed: %d corrupted traces, %d rejected' % (n, len(mism)))
-    c.cov['binding_selftest'] = '%d traces with an inflated read value, all rejected' % n
+    if len(stats) != 7:
+        raise MachineryError('binding self-test: only %s corrupted' % sorted(stats))
+    c.cov['binding_selftest'] = '%d traces with an inflated read value (%s), all rejected' % (n, ', '.join('%s x%d' % kv for kv in sorted(stats.items())))
     c.log('binding self-test: %d corrupted traces, all rejected' % n)
 
 
@@ -140,55 +209,87 @@ def check(c, tier, replay):
         return
     thorough = tier == 'thorough'
     # S1 ---------------------------------------------------------------------------------------
-    configs = [dict(n=1, bl=2, nw=2, nr=1, t0=1, maxt=4), dict(n=2, bl=2, nw=2, nr=1, t0=1, maxt=6)]
+    # kinds = statistic of each goroutine (writers first); default: everybody on the pass counter
+    configs = [dict(n=1, bl=2, nw=2, nr=1, t0=1, maxt=4), dict(n=2, bl=2, nw=2, nr=1, t0=1, maxt=6),
+               dict(n=1, bl=2, nw=2, nr=1, t0=1, maxt=4, kinds=['pass', 'complete', 'complete']),
+               dict(n=1, bl=2, nw=2, nr=1, t0=1, maxt=4, kinds=['rt', 'conc', 'minrt']),
+               dict(n=2, bl=1, nw=2, nr=1, t0=1, maxt=4, kinds=['conc', 'rt', 'maxconc'])]
+    nsim = 2 + 3
     if thorough:
         configs = [dict(n=1, bl=2, nw=2, nr=1, t0=1, maxt=5), dict(n=2, bl=2, nw=2, nr=1, t0=1, maxt=7),
+                   dict(n=1, bl=2, nw=2, nr=1, t0=1, maxt=4, kinds=['pass', 'complete', 'complete']),
+                   dict(n=1, bl=2, nw=2, nr=1, t0=1, maxt=4, kinds=['rt', 'rt', 'minrt']),
+                   dict(n=1, bl=2, nw=2, nr=1, t0=1, maxt=4, kinds=['conc', 'error', 'maxconc']),
+                   dict(n=2, bl=1, nw=2, nr=1, t0=1, maxt=4, kinds=['rt', 'conc', 'minrt']),
+                   dict(n=1, bl=2, nw=2, nr=1, t0=1, maxt=4, kinds=['rt', 'conc', 'minrt']),
+                   dict(n=2, bl=1, nw=2, nr=1, t0=1, maxt=4, kinds=['conc', 'rt', 'maxconc']),
+                   dict(n=2, bl=2, nw=2, nr=1, t0=1, maxt=6, kinds=['rt', 'conc', 'minrt']),
+                   dict(n=2, bl=2, nw=2, nr=1, t0=1, maxt=6, kinds=['complete', 'conc', 'maxconc']),
+                   dict(n=2, bl=2, nw=2, nr=1, t0=1, maxt=6, kinds=['block', 'rt', 'rt']),
+                   dict(n=1, bl=2, nw=1, nr=2, t0=1, maxt=4, kinds=['rt', 'minrt', 'rt']),
                    dict(n=1, bl=2, nw=3, nr=0, t0=1, maxt=4), dict(n=2, bl=1, nw=2, nr=1, t0=1, maxt=4),
                    dict(n=1, bl=2, nw=1, nr=2, t0=1, maxt=4)]
+        nsim = 10
     for k in configs:
         r = c.model_check('WindowConc_MC', cfg_text=cfg(**k), workers=8, timeout=3000, heap='14g')
         if not r.completed:
             c.inconclusive.append('WindowConc.tla (fixed order) violates %s for %s' % (r.violated, k))
     c.cov['exhaustive'] = True
     scns, tr = [], 0
-    # spec-level mutants = the two orders of the pinned tree; each must violate its invariant (vacuity guard) and its
-    # counterexample schedule is replayed on the real code
+    # spec-level mutants = the two orders of the pinned tree + "skip the reset of an idle bucket" for three statistics; each
+    # must violate its invariant (vacuity guard) and its counterexample schedule is replayed on the real code
     muts = []
-    for name, kw, inv, k in (('publish-then-reset', dict(resetfirst=False), 'NoInventionInv', dict(n=1, bl=2, nw=2, nr=1, t0=1, maxt=4)),
-                             ('no-recheck-under-lock', dict(recheck=False), 'FinalExact', dict(n=2, bl=2, nw=2, nr=1, t0=1, maxt=6))):
-        r = c.tlc('WindowConc_MC', cfg_text=cfg(**kw, **k), workers=1 if name.startswith('publish') else 8, timeout=900, count=False)
+    small = dict(n=1, bl=2, nw=1, nr=1, t0=1, maxt=4)
+    mutants = [('publish-then-reset', dict(resetfirst=False), 'NoInventionInv', dict(n=1, bl=2, nw=2, nr=1, t0=1, maxt=4)),
+               ('no-recheck-under-lock', dict(recheck=False), 'FinalExact', dict(n=2, bl=2, nw=2, nr=1, t0=1, maxt=6)),
+               ('skip-reset-when-no-pass/complete', dict(idle=['pass'], invs='NoInventionInv'), 'NoInventionInv', dict(small, kinds=['complete', 'complete'])),
+               ('skip-reset-when-no-pass/minrt', dict(idle=['pass'], invs='NoInventionInv'), 'NoInventionInv', dict(small, kinds=['rt', 'minrt'])),
+               ('skip-reset-when-no-pass/maxconc', dict(idle=['pass'], invs='NoInventionInv'), 'NoInventionInv', dict(small, kinds=['conc', 'maxconc']))]
+    if not thorough:
+        mutants.pop()       # quick: one sum statistic and one extremum statistic are enough as vacuity guards
+    for name, kw, inv, k in mutants:
+        r = c.tlc('WindowConc_MC', cfg_text=cfg(**kw, **k), workers=8 if name.startswith('no-recheck') else 1, timeout=900, count=False)
         if r.violated != inv:
             raise MachineryError('vacuity guard: the %s mutant of WindowConc must violate %s, got %s' % (name, inv, r.violated or r.error))
         tr += 1
-        scns.append(scenario(tr, last_sched(r.out) + [1, 2, 3] * 8, **{x: k[x] for x in ('n', 'bl', 'nw', 'nr', 't0')}))
+        scns.append(scenario(tr, last_sched(r.out) + list(range(1, k['nw'] + k['nr'] + 1)) * 8, **shape(k)))
         muts.append('%s violates %s: %s' % (name, inv, scns[-1]['sched']))
     c.cov['spec_mutants'] = muts
     c.log('S1 vacuity guard: %s' % muts)
     # S2 ---------------------------------------------------------------------------------------
-    for k in configs[:2]:
+    for k in configs[:nsim]:
         num = 150 if not thorough else 1500
-        r = c.tlc('WindowConc_Gen', cfg_text=cfg(extra='ACTION_CONSTRAINT Emit\n', **k).replace('INVARIANTS NoInventionInv ExactInv FinalExact', ''),
+        r = c.tlc('WindowConc_Gen', cfg_text=cfg(extra='ACTION_CONSTRAINT Emit\n', **k).replace('INVARIANTS NoInventionInv ExactInv FinalExact TypeOK\n', ''),
                   workers=1, timeout=900, count=False, args=['-simulate', 'num=%d' % num, '-depth', '60', '-seed', str(c.seed)])
         hs = maximal(r.json_prints())
         for sch in hs:
             tr += 1
-            scns.append(scenario(tr, sch, **{x: k[x] for x in ('n', 'bl', 'nw', 'nr', 't0')}))
+            scns.append(scenario(tr, sch, **shape(k)))
         c.log('S2 TLC simulation %s: %d schedules' % (k, len(hs)))
     ntlc = len(scns)
     rng = c.rng
+    # family 1: 2-4 goroutines x 1-2 ops, any schedule
     for i in range(800 if not thorough else 12000):
         tr += 1
         n = rng.choice([1, 1, 2, 2, 3])
         bl = rng.choice([1, 2, 3])
         np_ = rng.choice([2, 3, 3, 4])
-        procs = []
-        for p in range(np_):
-            ops = []
-            for _ in range(rng.choice([1, 1, 2])):
-                ops.append(dict(kind='add', n=rng.choice([1, 2, 5])) if rng.random() < 0.65 else dict(kind='read', n=0))
-            procs.append(ops)
+        palette = rand_palette(rng)
+        procs = [rand_ops(rng, rng.choice([1, 1, 2]), palette, 0.65) for p in range(np_)]
         ln = rng.randint(12, 70)
         sched = [rng.choice([0, 0] + list(range(1, np_ + 1)) * 3) for _ in range(ln)]
+        scns.append(scenario(tr, sched, n=n, bl=bl, t0=rng.choice([1, bl, 2 * bl - 1, n * bl, 3 * n * bl + 1]), unit=rng.choice([1, 1, 100, 500]), procs=procs))
+    # family 2: sparse traffic - 1-2 goroutines x 3-5 ops while the clock runs through several intervals (a bucket often
+    # holds a single statistic, e.g. only completions, when it is rolled over; later windows must not see it again)
+    for i in range(400 if not thorough else 6000):
+        tr += 1
+        n = rng.choice([1, 2, 2, 3])
+        bl = rng.choice([1, 2, 3])
+        np_ = rng.choice([1, 2, 2])
+        palette = rand_palette(rng)
+        procs = [rand_ops(rng, rng.choice([3, 4, 5]), palette, 0.55) for p in range(np_)]
+        ln = rng.randint(40, 120)
+        sched = [rng.choice([0] * (2 + np_) + list(range(1, np_ + 1)) * 2) for _ in range(ln)]
         scns.append(scenario(tr, sched, n=n, bl=bl, t0=rng.choice([1, bl, 2 * bl - 1, n * bl, 3 * n * bl + 1]), unit=rng.choice([1, 1, 100, 500]), procs=procs))
     # S3 + S4 ----------------------------------------------------------------------------------
     first = True
@@ -201,14 +302,17 @@ def check(c, tier, replay):
             binding_selftest(c, tp)
             first = False
     c.cov['distinct_nontrivial'] = len({json.dumps([s['sched'], s['procs'], s['n'], s['bl'], s['t0']]) for s in scns if 0 in s['sched']})
+    c.cov['scenarios_with_other_statistics_than_pass'] = sum(1 for s in scns if any(o['ev'] != 'pass' for p in s['procs'] for o in p))
     c.cov['rule'] = ('schedule = sequence of "goroutine i moves to its next la.*/mb.* yield point" / clock tick forced on the real '
-                     'BucketLeapArray; %d from TLC (simulation of WindowConc + counterexamples of its two spec-level mutants), rest seeded '
-                     'random with 1-2 ops per goroutine; non-trivial = distinct schedule containing a clock tick (so a roll-over can happen)' % ntlc)
+                     'BucketLeapArray; %d from TLC (simulation of WindowConc + counterexamples of its %d spec-level mutants), rest seeded '
+                     'random (1-2 ops per goroutine, and sparse-traffic runs of 3-5 ops per goroutine) over all statistics of a bucket; non-trivial = distinct schedule containing a clock tick (so a roll-over can happen)' % (ntlc, len(mutants)))
     c.sample(scns[0])
     c.sample(scns[ntlc - 1])
     c.sample(scns[-1])
     c.assumptions += ['no recorder is stalled for more than one bucket length (the driver refuses clock ticks that would break it, as the spec does)',
                       'hook placement: a step resuming from la.setstart / la.reset is a roll-over of the slot selected by that goroutine',
+                      'the minimum / maximum of a bucket (AddRt, UpdateConcurrency) has no yield point of its own: exactness of MinRt / MaxConcurrency is '
+                      'claimed only for recorders of one bucket that do not overlap each other and for reads during which the clock stood still',
                       'termination is checked as "every forced schedule runs to completion within 5000 steps" plus TLC deadlock-free exploration',
                       'exhaustive interleavings only for the bounded configurations listed in tlc_runs']
 
